@@ -78,3 +78,39 @@ package tchannel
 //@             off(w.curFragment.contents.remaining) == chunkStart(w.curFragment) + 2 &&
 //@             be16(w.curFragment.frame.Payload, chunkStart(w.curFragment) - off(w.curFragment.frame.Payload)) == 0
 //@   property C01
+
+// ---------------------------------------------------------------------------
+// C02: which CRC each checksum type is (the arithmetic itself is hash/crc32's)
+// ---------------------------------------------------------------------------
+
+// crcpoly(h): the (reversed) polynomial of the table a CRC hasher was built on.
+//@ ghost func crcpoly(h hash.Hash32) int
+//@ ghost func tablepoly(t *crc32.Table) int
+//@ extern hash/crc32.MakeTable(poly uint32) (t *crc32.Table)
+//@   ensures t != nil && tablepoly(t) == poly
+//@ extern hash/crc32.New(tab *crc32.Table) (h hash.Hash32)
+//@   ensures h != nil && crcpoly(h) == tablepoly(tab)
+//@ extern hash/crc32.NewIEEE() (h hash.Hash32)
+//@   ensures h != nil && crcpoly(h) == crc32.IEEE
+
+// The pooled hashers: type crc32 is the IEEE CRC-32, type crc32c is the
+// Castagnoli CRC-32C (reversed polynomial 0x82F63B78) -- the polynomials every
+// conforming peer uses.
+//@ closure init 2
+//@   label crc32-is-the-IEEE-polynomial
+//@   atcall newHashChecksum arg0 == ChecksumTypeCrc32 && crcpoly(arg1) == 0xedb88320
+//@   property C02
+//@ closure init 3
+// (about the captured table: checked in init(), where the closure is created)
+//@   requires tablepoly(crc32CastagnoliTable) == 0x82F63B78
+//@   label crc32c-is-the-Castagnoli-polynomial
+//@   atcall newHashChecksum arg0 == ChecksumTypeCrc32C && crcpoly(arg1) == 0x82F63B78
+//@   property C02
+
+// The table the crc32c closure captures is built from the Castagnoli polynomial.
+//@ func init()
+//@   label crc32c-table-is-built-from-the-Castagnoli-polynomial
+//@   atcall MakeTable arg0 == 0x82F63B78
+//@   nosafety
+//@   modifies all
+//@   property C02
